@@ -58,6 +58,7 @@ theorem run_getElem (pre : List Op) (op : Op) (post : List Op) :
 structure Inv (pre : List Op) (s : St) : Prop where
   linv : ∀ n, LInv (s.loc n)
   selfJoin : (s.loc self).joinTs = none
+  selfLeft : (s.loc self).leftTs = none
   leftTs : ∀ n t, (s.loc n).leftTs = some t → 1 ≤ t ∧ t ≤ pre.length ∧ ∃ c, pre[t - 1]? = some (.left n c)
   complete : ∀ e, s.g.completeSeen e = true → Op.complete e ∈ pre
   latest : s.g.leftLatest ≠ 0 → ∃ m, Op.start .left m s.g.leftLatest ∈ pre
@@ -71,6 +72,7 @@ theorem Inv_step {pre : List Op} {s : St} (hi : Inv pre s) (op : Op) :
   constructor
   · intro n; exact stepL_LInv _ _ _ _ _ _ (hi.linv n)
   · exact (stepL_self_join _ _ _ _ _ _ rfl hi.selfJoin).1
+  · exact (stepL_self_left _ _ _ _ _ _ rfl hi.selfLeft).1
   · intro n t h
     rcases stepL_leftTs_prov _ _ _ _ _ _ t h with h | ⟨rfl, _, hop⟩
     · obtain ⟨h1, h2, c, h3⟩ := hi.leftTs n t h
